@@ -1695,4 +1695,130 @@ Proof.
   destruct X as [G' S]. split; [split; [exact G'|apply (ac_inv _ _ _ _ _ _ AC)]|apply (ws_ok _ _ S Wok)].
 Qed.
 
+(* ------------------------------------------------------------------------------------------ *)
+(* Part 7: the block points outside poll_input (C08, item 2b)                                   *)
+(* ------------------------------------------------------------------------------------------ *)
+
+(* Request::record_boundary: a deadlock inside its loop happens only strictly inside a record (the client has
+   started a record and not finished it); nothing was written, the replies produced so far are still pending in
+   the parser (the flush is deferred to close), and all replies are still accounted for *)
+Theorem boundary_loop_deadlock : forall fuel new r w w',
+  pinv (rsp r) -> bytes_ok new -> len new <= sinput_space (rsp r) -> bytes_ok (remaining w) ->
+  boundary_loop maxc fuel new r w = Halt ODeadlock w' ->
+  gated w' /\ wlog w' = wlog w /\
+  exists p', pinv p' /\ is_record_boundary p' = false /\ sreq p' = sreq (rsp r) /\
+             R maxc (abs (rsp r)) (new ++ remaining w) = R maxc (abs p') (remaining w').
+Proof.
+  induction fuel as [|f IH]; intros new r w w' Hinv Hnew Hfit Hrem E; [discriminate E|].
+  rewrite ConnWrites.boundary_loop_S in E.
+  pose proof (sparse_step (rsp r) new None Hinv Hnew Hfit ltac:(intros H; contradiction)) as SS.
+  assert (AFTER : forall p1 s, sparse_ok (rsp r) new None p1 s ->
+            ConnWrites.bl_after maxc f r w p1 = Halt ODeadlock w' ->
+            gated w' /\ wlog w' = wlog w /\
+            exists p', pinv p' /\ is_record_boundary p' = false /\ sreq p' = sreq (rsp r) /\
+                       R maxc (abs (rsp r)) (new ++ remaining w) = R maxc (abs p') (remaining w')).
+  { intros p1 s SO E1. unfold ConnWrites.bl_after in E1. cbv zeta in E1.
+    destruct (is_record_boundary p1) eqn:Eb; [discriminate E1|].
+    pose proof (so_inv _ _ _ _ _ SO) as [RI1 I1].
+    pose proof (compress_abs p1 RI1) as CA.
+    assert (I2 : pinv (compress p1)) by (split; [apply compress_RI; exact RI1|rewrite CA; apply compress_inv; exact I1]).
+    assert (Eb2 : is_record_boundary (compress p1) = false) by exact Eb.
+    assert (HR : forall u, R maxc (abs (rsp r)) (new ++ u) = R maxc (abs (compress p1)) u).
+    { intros u. rewrite (so_R _ _ _ _ _ SO u), CA. reflexivity. }
+    pose proof (await_read_rem (io_fuel w 0) false (sinput_space (compress p1)) w) as AR.
+    destruct (await_read (io_fuel w 0) false (sinput_space (compress p1)) w) as [[b|k] w1|o w1]; [| discriminate E1|].
+    - destruct AR as (A1 & A2 & A3 & A4 & _). destruct b as [|x b]; [discriminate E1|].
+      rewrite A3 in Hrem. apply bytes_ok_app in Hrem.
+      destruct (IH (x :: b) (mkR (compress p1) (rwriteable r) (rlock r)) w1 w' I2 (proj1 Hrem) A4 (proj2 Hrem) E1)
+        as (G & L & p' & P1 & P2 & P3 & P4).
+      split; [exact G|]. split; [rewrite L; exact A1|]. exists p'. split; [exact P1|]. split; [exact P2|].
+      cbn [rsp] in P3, P4. split; [rewrite P3; apply SO|]. rewrite A3, HR. exact P4.
+    - injection E1 as -> ->. destruct AR as (A1 & A2 & A3 & A4).
+      split; [apply A4; reflexivity|]. split; [exact A1|]. exists (compress p1). split; [exact I2|]. split; [exact Eb2|].
+      split; [apply SO|]. rewrite A3. apply HR. }
+  destruct (sparse maxc (rsp r) new None) as [p1 s|p1 e s|n]; [apply (AFTER p1 s); [apply SS|exact E]| |discriminate E].
+  destruct SS as (SO & He & _). destruct e; try discriminate E.
+  unfold ConnWrites.bl_after in E. cbv zeta in E. rewrite (err_at_boundary _ _ He) in E. discriminate E.
+Qed.
+
 End Reads.
+
+Section ParseRequest.
+Variable norm : bytes -> bytes.
+Variable maxc : N.
+
+(* Token::parse_request, one iteration: the transport is read only after the whole output of the parse call
+   just made has been accepted by the transport *)
+Theorem parse_request_iter f p new w :
+  parse_request norm maxc (S f) p new w =
+  match parse norm maxc p new with
+  | PPanic n => Halt (OPanic n) w
+  | POk p' done out =>
+    match await_write_all (io_fuel w (len out)) true out w with
+    | Halt o w' => Halt o w'
+    | Ok (Some k) w' => Ok (inr k) w'
+    | Ok None w' =>
+      if done then match into_stream_parser p' with inl s => Ok (inl s) w' | inr e => Ok (inr (perr_kind e)) w' end
+      else match await_read (io_fuel w' 0) true (input_space p') w' with
+           | Halt o w'' => Halt o w''
+           | Ok (inr k) w'' => Ok (inr k) w''
+           | Ok (inl []) w'' => Ok (inr EK_Reset) w''
+           | Ok (inl b) w'' => parse_request norm maxc f p' b w''
+           end
+    end
+  end.
+Proof. reflexivity. Qed.
+
+Corollary parse_request_read_after_flush f p new w p' out :
+  parse norm maxc p new = POk p' false out ->
+  match await_write_all (io_fuel w (len out)) true out w with
+  | Ok None w1 => wlog w1 = wlog w ++ out /\ remaining w1 = remaining w /\
+      parse_request norm maxc (S f) p new w =
+        match await_read (io_fuel w1 0) true (input_space p') w1 with
+        | Halt o w'' => Halt o w''
+        | Ok (inr k) w'' => Ok (inr k) w''
+        | Ok (inl []) w'' => Ok (inr EK_Reset) w''
+        | Ok (inl b) w'' => parse_request norm maxc f p' b w''
+        end
+  | Ok (Some k) w1 => parse_request norm maxc (S f) p new w = Ok (inr k) w1      (* no read *)
+  | Halt o w1 => parse_request norm maxc (S f) p new w = Halt o w1 /\ o <> ODeadlock   (* no read *)
+  end.
+Proof.
+  intros E. rewrite parse_request_iter, E.
+  pose proof (await_write_all_spec (io_fuel w (len out)) true out w) as H.
+  destruct (await_write_all (io_fuel w (len out)) true out w) as [[k|] w1|o w1].
+  - reflexivity.
+  - split; [apply (io_rel_wlog _ _ _ H)|]. split; [apply same_but_io_remaining; apply H|reflexivity].
+  - split; [reflexivity|]. intros ->. exact H.
+Qed.
+
+(* the parse calls made by parse_request and their outputs *)
+Inductive pr_chain : parser -> bytes -> list bytes -> Prop :=
+| PC_last p new p' out : parse norm maxc p new = POk p' false out -> pr_chain p new [out]
+| PC_step p new p' out b outs : parse norm maxc p new = POk p' false out -> b <> [] -> pr_chain p' b outs ->
+    pr_chain p new (out :: outs).
+
+(* item 2b (C08): if the task deadlocks in parse_request, it does so in the read, with every reply produced by
+   every parse call made so far completely in the transport's log, and nothing else in it *)
+Theorem parse_request_deadlock : forall fuel p new w w',
+  parse_request norm maxc fuel p new w = Halt ODeadlock w' ->
+  gated w' /\ exists outs, pr_chain p new outs /\ wlog w' = wlog w ++ concat outs.
+Proof.
+  induction fuel as [|f IH]; intros p new w w' E; [discriminate E|].
+  rewrite parse_request_iter in E.
+  destruct (parse norm maxc p new) as [p' done out|n] eqn:EP; [|discriminate E].
+  pose proof (await_write_all_spec (io_fuel w (len out)) true out w) as H.
+  destruct (await_write_all (io_fuel w (len out)) true out w) as [[k|] w1|o w1]; [discriminate E| |].
+  2:{ injection E as -> ->. contradiction. }
+  pose proof (io_rel_wlog _ _ _ H) as L1.
+  destruct done; [destruct (into_stream_parser p'); discriminate E|].
+  pose proof (await_read_rem (io_fuel w1 0) true (input_space p') w1) as AR.
+  destruct (await_read (io_fuel w1 0) true (input_space p') w1) as [[b|k] w2|o w2]; [|discriminate E|].
+  - destruct b as [|x b]; [discriminate E|]. destruct AR as (A1 & _).
+    destruct (IH p' (x :: b) w2 w' E) as (G & outs & C & L).
+    split; [exact G|]. exists (out :: outs). split; [eapply PC_step; [exact EP| |exact C]; discriminate|].
+    cbn [concat]. rewrite L, A1, L1, app_assoc. reflexivity.
+  - injection E as -> ->. destruct AR as (A1 & _ & _ & A4). split; [apply A4; reflexivity|].
+    exists [out]. split; [eapply PC_last; exact EP|]. cbn [concat]. rewrite app_nil_r, A1. exact L1.
+Qed.
+End ParseRequest.
